@@ -1766,7 +1766,10 @@ def _apply_cumulative(
     orig_dtype = orig_dtypes[0]
 
     target = _build_target_for_groupby(
-        values[0].dtype, "sum" if counting else operation, len(group_key)
+        # counts are signed integers whatever is counted (-1 marks rows without a group)
+        np.dtype("int64") if counting else values[0].dtype,
+        "sum" if counting else operation,
+        len(group_key),
     )
     func = _cumulative_reduce.py_func if use_py_func else _cumulative_reduce
     result, has_null_keys = func(
